@@ -566,6 +566,19 @@ pub fn run(ctx: &Ctx, rep: &mut Report) {
         for c in [",", "."] {
             lex.entries.push(Entry::simple(c, rng.range(0, nid - 1) as i16, rng.range(0, nid - 1) as i16, rng.range(0, 300) as i16, &pool[2]));
         }
+        // every third world: cheap multi-character numeral entries with declared A/B units (二十 = 二/十 ...): a joined
+        // numeral that begins with one of them is one token in every mode, it does not take over the units of its first part
+        if wi % 3 == 0 {
+            let row_of = |c: char| 7 + "0123456789〇一二三四五六七八九十百千万億兆".chars().position(|x| x == c).unwrap();
+            for w in ["二十", "百万", "三千", "五百", "十万"] {
+                let mut e = Entry::simple(w, rng.range(0, nid - 1) as i16, rng.range(0, nid - 1) as i16, -3000, &pool[1]);
+                e.mode = "C";
+                e.split_a = w.chars().map(|c| crate::model::Ref { dic: 0, row: row_of(c), inline: false }).collect();
+                e.split_b = e.split_a.clone();
+                lex.entries.push(e);
+            }
+            rep.count("worlds_with_numeral_entries_that_declare_units", 1);
+        }
         let mut p = PluginOpts::none();
         p.join_numeric = Some(true);
         p.default_input = wi % 2 == 0;
@@ -694,6 +707,11 @@ pub fn run(ctx: &Ctx, rep: &mut Report) {
                                 c => c,
                             }).collect();
                             if surf.chars().count() < 2 {
+                                continue;
+                            }
+                            if tk.word_id != 0xffff_ffff {
+                                // a dictionary word left as it was (the run around it was not joined): not a joined numeral
+                                rep.count("dictionary_words_inside_runs_that_were_not_joined", 1);
                                 continue;
                             }
                             match evaluate(&surf) {
